@@ -321,11 +321,15 @@ class YncaCommandHandler(socketserver.StreamRequestHandler):
 
                 # When received on a Zone the response is on INP subunit
                 if subunit in ZONES:
-                    subunit = [
+                    source_subunits = [
                         m[1][0]
                         for m in INPUT_SUBUNITLIST_MAPPING
                         if m[0].value == self.store.get_data(subunit, "INP")
-                    ][0]
+                    ]
+                    if not source_subunits:
+                        # Current input has no subunit that reports playback info
+                        return
+                    subunit = source_subunits[0]
 
             # Send (possibly multiple) responses
             if response_functions := related_functions_table.get(function, None):
